@@ -24,6 +24,19 @@ def subsets(u):
     return out
 
 
+def harvest_pyx_constants(lo=48, hi=8192):
+    """integer literals and constant shifts of the current set_operations.pyx (C19's partition refinement, applied to sizes)"""
+    import re
+    from .. import build
+    try:
+        src = (build.REPO / "src" / "catii" / "set_operations.pyx").read_text()
+    except Exception:  # noqa
+        return []
+    src = re.sub(r"#.*", "", src)
+    out = {int(m) for m in re.findall(r"(?<![\w.])(\d{2,})(?![\w.])", src)} | {1 << int(m) for m in re.findall(r"1\s*<<\s*(\d+)", src)}
+    return sorted(v for v in out if lo <= v <= hi)
+
+
 def gen_cases(tier, seed):
     rnd = random.Random(seed)
     u = universe(tier)
@@ -41,6 +54,16 @@ def gen_cases(tier, seed):
             for B in su:
                 for la, lb in (("stride2", "contig"), ("contig", "stride2"), ("reversed", "stride2"), ("stride2", "reversed")):
                     cases.append({"kind": "kernel", "op": op, "A": A, "B": B, "layoutA": la, "layoutB": lb})
+    # operands that are two views of the same buffer: equal start with different strides, equal length, nested, shifted,
+    # the very same view twice
+    for buf in ([0, 1, 2, 3, 4, 5, 6, 7, 8, 9], [5, 7, 2 ** 31, M32 - 3, M32 - 1, M32], list(range(10, 43, 3))):
+        n = len(buf)
+        specs = [(0, n, 1), (0, n // 2, 1), (0, n, 2), (0, n, 3), (1, n, 1), (1, n, 2), (2, n - 1, 1), (n // 2, n, 1), (0, 1, 1), (0, 0, 1)]
+        for sa in specs:
+            for sb in specs:
+                for op in ("inter", "union", "diff"):
+                    cases.append({"kind": "kernel", "op": op, "A": buf[slice(*sa)], "B": buf[slice(*sb)],
+                                  "views": {"buf": buf, "a": list(sa), "b": list(sb)}})
     # wrappers: every None / empty / non-empty combination, plus all pairs over a 4-point universe
     wu = [0, 5, 2 ** 31, M32]
     wsubs = [None] + subsets(wu)
@@ -95,6 +118,20 @@ def gen_cases(tier, seed):
             for op in ("inter", "union", "diff"):
                 cases.append({"kind": "kernel", "op": op, "A": dense, "B": sp})
                 cases.append({"kind": "kernel", "op": op, "A": sp, "B": dense})
+    # the same idea at the scale of larger blocks: 1024, 2048 (4096 thorough) and every integer constant the current
+    # .pyx source mentions (a block or leap size is a boundary): dense runs of length c+1, 2c+1 against single elements
+    # placed around every multiple of c from the front and from the back
+    blocks = sorted({1024, 2048} | ({4096} if tier == "thorough" else set()) | set(harvest_pyx_constants()))
+    for c in blocks:
+        for length in (c + 1, 2 * c + 1):
+            dense = list(range(3, 3 + length))
+            picks = sorted({q for k in (1, 2) for d in (-1, 0, 1) for q in (k * c + d, length - 1 - (k * c + d), length - (k * c + d))
+                            if 0 <= q < length} | {0, length - 1})
+            sparse_sets = [[dense[q]] for q in picks] + [[dense[q] for q in picks[i::3]] for i in range(3)]
+            for sp in sparse_sets:
+                for op in ("inter", "union", "diff"):
+                    cases.append({"kind": "kernel", "op": op, "A": dense, "B": sp})
+                    cases.append({"kind": "kernel", "op": op, "A": sp, "B": dense})
     for _ in range(n // 4):
         k = rnd.randint(0, 6)
         hi = rnd.choice([20, 300, M32])
@@ -195,7 +232,12 @@ def execute(cases, mod, asan_log=None, guard=None, progress=None):
             with open(progress, "w") as pf:
                 pf.write(str(tid))
         try:
-            if c["kind"] == "kernel":
+            if c["kind"] == "kernel" and "views" in c:
+                # both operands are views of ONE buffer (a caller's table): same start or overlapping, different strides
+                ins = list(c["A"]) + list(c["B"])
+                buf = arr(c["views"]["buf"])
+                ret = kern[c["op"]](buf[slice(*c["views"]["a"])], buf[slice(*c["views"]["b"])])
+            elif c["kind"] == "kernel":
                 ins = list(c["A"]) + list(c["B"])
                 ret = kern[c["op"]](arr(c["A"], c.get("layoutA", "contig")), arr(c["B"], c.get("layoutB", "contig")))
             elif c["kind"] == "wrapper":
